@@ -184,6 +184,8 @@ func (c *Cluster) start(nid uint64, dir string) (*Node, error) {
 		serveRet: make(chan struct{}), gone: make(chan struct{})}
 	n.fsm = newRecFSM(c.rc, dir)
 	c.rc.register(dir, &nodeRef{cid: c.cid, nid: nid, inc: inc, label: n.label})
+	// (a short record: the system-call monitor reads it from the trace)
+	c.rc.emitNode(dir, &ev.Rec{K: "node-dir", Dir: dir})
 	r, err := raft.New(c.opt, n.fsm, dir)
 	if err != nil {
 		c.rc.emitNode(dir, &ev.Rec{K: "open-failed", Err: err.Error(), Dir: dir})
